@@ -55,7 +55,7 @@ type c07VFS struct {
 	// created file" (the batch is written, neither file nor directory fsynced yet)
 	killFirstSync int
 	firstSyncs    int
-	mu      sync.Mutex
+	mu            sync.Mutex
 }
 
 func (v *c07VFS) step() {
@@ -287,17 +287,17 @@ type c07Monitor struct {
 	metaSeen bool                     // wal-meta.db exists under its final name
 	replay   map[string]any
 	// windows
-	opBegin    map[string]int      // op number -> Start of BEGIN marker
-	opTouched  map[string]bool     // wal files written since the current BEGIN
-	delBegin   map[string]int      // file -> position of VFS BEGIN delete
-	unlinkAt   map[string]int      // file -> End of its unlink
-	dirSyncPos []int               // Start positions of successful dir fsyncs (paired with End)
-	dirSyncEnd []int
-	renamePos  int
+	opBegin                                                              map[string]int  // op number -> Start of BEGIN marker
+	opTouched                                                            map[string]bool // wal files written since the current BEGIN
+	delBegin                                                             map[string]int  // file -> position of VFS BEGIN delete
+	unlinkAt                                                             map[string]int  // file -> End of its unlink
+	dirSyncPos                                                           []int           // Start positions of successful dir fsyncs (paired with End)
+	dirSyncEnd                                                           []int
+	renamePos                                                            int
 	nFileSync, nDirSyncFS, nHookFile, nHookDirFS, nHookDirMeta, nDirSync int
-	offset     int // line offset for concatenated lifetimes
-	pendingCreateSize map[string]int64
-	only              string // report only rules whose signature contains this
+	offset                                                               int // line offset for concatenated lifetimes
+	pendingCreateSize                                                    map[string]int64
+	only                                                                 string // report only rules whose signature contains this
 }
 
 func (mo *c07Monitor) v(sig, desc string) {
